@@ -334,7 +334,7 @@ def _cmps_(i, fmap, l):
         fmap[af] = tst(cnt == 0, fmap(af), halfborrow(dst, src))
         fmap[pf] = tst(cnt == 0, fmap(pf), parity8(x[0:8]))
         fmap[zf] = tst(cnt == 0, fmap(zf), x == 0)
-        fmap[sf] = tst(cnt == 0, fmap(sf), x < 0)
+        fmap[sf] = tst(cnt == 0, fmap(sf), x.bit(-1))
         fmap[cf] = tst(cnt == 0, fmap(cf), carry)
         fmap[of] = tst(cnt == 0, fmap(of), overflow)
         fmap[eip] = tst(cnt == 0, fmap[eip] + i.length, fmap[eip])
@@ -343,7 +343,7 @@ def _cmps_(i, fmap, l):
         fmap[af] = halfborrow(dst, src)
         fmap[pf] = parity8(x[0:8])
         fmap[zf] = x == 0
-        fmap[sf] = x < 0
+        fmap[sf] = x.bit(-1)
         fmap[cf] = carry
         fmap[of] = overflow
         fmap[eip] = fmap[eip] + i.length
@@ -377,7 +377,7 @@ def _scas_(i, fmap, l):
         fmap[af] = tst(cnt == 0, fmap(af), halfborrow(a, src))
         fmap[pf] = tst(cnt == 0, fmap(pf), parity8(x[0:8]))
         fmap[zf] = tst(cnt == 0, fmap(zf), x == 0)
-        fmap[sf] = tst(cnt == 0, fmap(sf), x < 0)
+        fmap[sf] = tst(cnt == 0, fmap(sf), x.bit(-1))
         fmap[cf] = tst(cnt == 0, fmap(cf), carry)
         fmap[of] = tst(cnt == 0, fmap(of), overflow)
         fmap[eip] = tst(cnt == 0, fmap[eip] + i.length, fmap[eip])
@@ -386,7 +386,7 @@ def _scas_(i, fmap, l):
         fmap[af] = halfborrow(a, src)
         fmap[pf] = parity8(x[0:8])
         fmap[zf] = x == 0
-        fmap[sf] = x < 0
+        fmap[sf] = x.bit(-1)
         fmap[cf] = carry
         fmap[of] = overflow
         fmap[eip] = fmap[eip] + i.length
@@ -653,7 +653,7 @@ def i_INC(i, fmap):
     fmap[af] = halfcarry(a, b)
     fmap[pf] = parity8(x[0:8])
     fmap[zf] = x == 0
-    fmap[sf] = x < 0
+    fmap[sf] = x.bit(-1)
     fmap[of] = overflow
     fmap[op1] = x
 
@@ -668,7 +668,7 @@ def i_DEC(i, fmap):
     fmap[af] = halfborrow(a, b)
     fmap[pf] = parity8(x[0:8])
     fmap[zf] = x == 0
-    fmap[sf] = x < 0
+    fmap[sf] = x.bit(-1)
     fmap[of] = overflow
     fmap[op1] = x
 
@@ -683,7 +683,7 @@ def i_NEG(i, fmap):
     fmap[pf] = parity8(x[0:8])
     fmap[cf] = b != 0
     fmap[zf] = x == 0
-    fmap[sf] = x < 0
+    fmap[sf] = x.bit(-1)
     fmap[of] = overflow
     fmap[op1] = x
 
@@ -745,7 +745,7 @@ def i_ADC(i, fmap):
     fmap[pf] = parity8(x[0:8])
     fmap[af] = halfcarry(a, op2, c)
     fmap[zf] = x == 0
-    fmap[sf] = x < 0
+    fmap[sf] = x.bit(-1)
     fmap[cf] = carry
     fmap[of] = overflow
     fmap[op1] = x
@@ -760,7 +760,7 @@ def i_ADD(i, fmap):
     fmap[pf] = parity8(x[0:8])
     fmap[af] = halfcarry(a, op2)
     fmap[zf] = x == 0
-    fmap[sf] = x < 0
+    fmap[sf] = x.bit(-1)
     fmap[cf] = carry
     fmap[of] = overflow
     fmap[op1] = x
@@ -776,7 +776,7 @@ def i_SBB(i, fmap):
     fmap[pf] = parity8(x[0:8])
     fmap[af] = halfborrow(a, op2, c)
     fmap[zf] = x == 0
-    fmap[sf] = x < 0
+    fmap[sf] = x.bit(-1)
     fmap[cf] = carry
     fmap[of] = overflow
     fmap[op1] = x
@@ -791,7 +791,7 @@ def i_SUB(i, fmap):
     fmap[pf] = parity8(x[0:8])
     fmap[af] = halfborrow(a, op2)
     fmap[zf] = x == 0
-    fmap[sf] = x < 0
+    fmap[sf] = x.bit(-1)
     fmap[cf] = carry
     fmap[of] = overflow
     fmap[op1] = x
@@ -805,7 +805,7 @@ def i_AND(i, fmap):
         op2 = op2.signextend(op1.size)
     x = fmap(op1) & op2
     fmap[zf] = x == 0
-    fmap[sf] = x < 0
+    fmap[sf] = x.bit(-1)
     fmap[cf] = bit0
     fmap[of] = bit0
     fmap[pf] = parity8(x[0:8])
@@ -818,7 +818,7 @@ def i_OR(i, fmap):
     fmap[eip] = fmap[eip] + i.length
     x = fmap(op1) | op2
     fmap[zf] = x == 0
-    fmap[sf] = x < 0
+    fmap[sf] = x.bit(-1)
     fmap[cf] = bit0
     fmap[of] = bit0
     fmap[pf] = parity8(x[0:8])
@@ -831,7 +831,7 @@ def i_XOR(i, fmap):
     op2 = fmap(i.operands[1])
     x = fmap(op1) ^ op2
     fmap[zf] = x == 0
-    fmap[sf] = x < 0
+    fmap[sf] = x.bit(-1)
     fmap[cf] = bit0
     fmap[of] = bit0
     fmap[pf] = parity8(x[0:8])
@@ -845,7 +845,7 @@ def i_CMP(i, fmap):
     x, carry, overflow = SubWithBorrow(op1, op2)
     fmap[af] = halfborrow(op1, op2)
     fmap[zf] = x == 0
-    fmap[sf] = x < 0
+    fmap[sf] = x.bit(-1)
     fmap[cf] = carry
     fmap[of] = overflow
     fmap[pf] = parity8(x[0:8])
@@ -929,7 +929,7 @@ def i_SHR(i, fmap):
         fmap[of] = top(1)
     res = a >> count
     fmap[op1] = res
-    fmap[sf] = res < 0
+    fmap[sf] = res.bit(-1)
     fmap[zf] = res == 0
     fmap[pf] = parity8(res[0:8])
 
@@ -955,7 +955,7 @@ def i_SAR(i, fmap):
         fmap[of] = top(1)
     res = a // count  # (// is used as arithmetic shift in cas.py)
     fmap[op1] = res
-    fmap[sf] = res < 0
+    fmap[sf] = res.bit(-1)
     fmap[zf] = res == 0
     fmap[pf] = parity8(res[0:8])
 
@@ -981,7 +981,7 @@ def i_SHL(i, fmap):
         fmap[cf] = top(1)
         fmap[of] = top(1)
     fmap[op1] = x
-    fmap[sf] = x < 0
+    fmap[sf] = x.bit(-1)
     fmap[zf] = x == 0
     fmap[pf] = parity8(x[0:8])
 
@@ -1097,7 +1097,7 @@ def i_SHRD(i, fmap):
         r = op1.size - n
         x = (fmap(op1) >> n) | (op2 << r)
     fmap[op1] = x
-    fmap[sf] = x < 0
+    fmap[sf] = x.bit(-1)
     fmap[zf] = x == 0
     fmap[pf] = parity8(x[0:8])
 
@@ -1114,7 +1114,7 @@ def i_SHLD(i, fmap):
         r = op1.size - n
         x = (fmap(op1) << n) | (op2 >> r)
     fmap[op1] = x
-    fmap[sf] = x < 0
+    fmap[sf] = x.bit(-1)
     fmap[zf] = x == 0
     fmap[pf] = parity8(x[0:8])
 
